@@ -59,6 +59,11 @@ class Rec:
             return self.attrs[name]
         if name.startswith('kvc_') or name.startswith('__') and name not in ('__name__', '__class__', '__bool__'):
             raise AttributeError(name)
+        res = getattr(self, 'method_resolver', None)
+        if res is not None:
+            m = res(interp, self, name)
+            if m is not None:
+                return m
         return Rec('attr', self, name)
 
     def kvc_hasattr(self, interp, name):
